@@ -162,7 +162,7 @@ def fold_lines(ctx, impl, cases, rcm, mo, em, ires, kind, oracle_fn, how):
             continue
         if st != "ok":
             vs = oracle_fn(c[:len(i)], i)
-            what = ("did not return within 5 s (a walk that never advances)" if st == "hang"
+            what = ("did not return within 3 s of CPU time (a walk that never advances)" if st == "hang"
                     else "aborted (sanitizer report or crash): " + crash_key(err))
             vs.append((st, "the implementation %s at op '%s' of a %s case" % (what, c[min(len(i), len(c) - 1)], kind), len(i)))
             report(ctx, impl, c[:len(i) + 1], vs, kind, oracle_fn, how)
@@ -220,11 +220,14 @@ def eval_lines(ctx, orac, impl, shards, kind, oracle_fn, how):
 def eval_pipe(ctx, orac, pipe, cases, how):
     # in chunks: when the implementation hangs or dies in many runs (every hang costs the 20 s watchdog) the rest is skipped
     results = []
-    for k in range(0, len(cases), 320):
-        part = vlib.parallel(lambda c: run_lines(pipe, c, timeout=60), cases[k:k + 320])
+    k, step = 0, 64
+    while k < len(cases):
+        part = vlib.parallel(lambda c: run_lines(pipe, c, timeout=60), cases[k:k + step])
         results += part
+        k += step
+        step = 640
         bad = sum(1 for (rc, lines, err) in part if "HANG" in lines or rc == 124 or rc not in (0, 42, 43))
-        if bad >= 8 and k + 320 < len(cases):
+        if bad >= 8 and k < len(cases):
             ctx.count("pipe:skipped-after-failures", len(cases) - len(results))
             cases = cases[:len(results)]
             break
@@ -256,7 +259,7 @@ def eval_pipe(ctx, orac, pipe, cases, how):
             if hang or san or rc not in (0, 42, 43):
                 key = "hang" if hang else "crash"
                 if not ctx.has_violation(key):
-                    what = ("did not return within 20 s in a loop without scheduling points (a walk that never advances)" if hang
+                    what = ("did not return within 5 s of CPU time in a loop without scheduling points (a walk that never advances)" if hang
                             else "aborted (sanitizer report or crash): " + crash_key(err))
                     ctx.violation("the implementation %s in a pipeline run" % what,
                                   {"kind": "pipe", "case": case, "tail": [x[:300] for x in lines[-8:]], "stderr": (err or "")[-2500:], "how": how}, key=key)
@@ -314,6 +317,13 @@ def run(ctx):
     ctx.coq_prove(["Properties_C05"])
     orac, impl, pipe = build(ctx)
     thorough = ctx.tier == "thorough"
+    if thorough and not getattr(ctx, "replay_file", None):
+        # independent re-check of the compiled development (DESIGN 4): coqchk, with the axiom summary
+        rc, o, e = vlib.sh(["coqchk", "-silent", "-o", "-Q", ".", "Ring", "Ring.Properties_C05"], cwd=ctx.coqdir, timeout=900)
+        txt = o + e
+        if rc != 0 or "* Axioms: <none>" not in txt:
+            ctx.broken.append(("coqchk does not accept Properties_C05 without axioms", txt[-800:]))
+        ctx.extra["coqchk"] = "coqchk -o Ring.Properties_C05: rc=%d, %s" % (rc, "Axioms: <none>" if "* Axioms: <none>" in txt else txt[-200:])
     how_l = ("feed `ops`, one per line, to .build/%s/h_layout (built by this check from %s; protocol at the top of "
              "fam/layout/harness/h_layout.c)" % (ctx.prop, vlib.REPO))
     how_p = ("feed `case`, one line each, to .build/%s/h_layout_pipe (built by this check from %s; protocol at the top of "
@@ -329,7 +339,7 @@ def run(ctx):
         "one frame, random; 1..3 readers joining at any time; reader 0 consumes like the sink (real vfslice_split under a scripted clock), "
         "the others like a client (0..3 frames or everything); commits, aborts, accept toggles. "
         "pipe: real source.c -> (filter.c ->) channel.c -> sink.c threads + a monitor client under one random schedule per case, 3..30 "
-        "(thorough 60) frames of 1..6 scripted shapes (8% dropped frames), write delays 0..50 ms (virtual clock), capacities as above. "
+        "(thorough 60) frames of 1..6 scripted shapes (8% dropped frames), write delays 0..0.5 ms of the virtual clock (the sink spins while frames are younger), capacities as above. "
         "non-trivial = (fn) a packet of >= 2 frames; (ring) the writer wrapped, a slice of >= 2 frames was read and a reader consumed part "
         "of a slice; (pipe) the run ended, the ring wrapped and a packet of >= 2 frames was seen. distinct = case text")
     ctx.assumptions = [
